@@ -205,15 +205,50 @@ def post(solver, gen, rng, depth):
         solver._verif_sems.append(sc)
 
 
+DECL_FAILURES = []
+
+
+def take_decl_failures(ctx, prop):
+    """Declarations that raised although their arguments were valid: reported as disagreements and as concrete findings."""
+    from .core import Finding
+    seen = sorted(set(DECL_FAILURES))
+    del DECL_FAILURES[:]
+    for what in seen[:3]:
+        ctx.count("declaration-raised")
+        ctx.disagree("declaration-raised", what=what)
+        if not hasattr(ctx, "concrete"):
+            ctx.concrete = []
+        ctx.concrete.append(Finding("declare:raises", what + " -- a variable declaration with valid arguments must succeed", {"what": what}))
+
+
 def random_session(rng, max_bools=3, max_ints=3, depth=3, nconstraints=(1, 4), dom=(-2, 3)):
     """Returns (solver, bools, ints) with constraints already posted (shadows in solver._verif_sems)."""
     from cspuz import Solver
     s = Solver()
     s._verif_sems = []
     s._verif_posts = []      # [ensure form, [printed items]] in posting order: the calls as made, for replays
-    bools = [s.bool_var() for _ in range(rng.randint(0, max_bools))]
+    nb = rng.randint(0, max_bools)
+
+    def declare(what, fn, *a):
+        # a declaration with valid arguments (lo <= hi, non-negative sizes) must succeed: a raise is recorded as a failing input
+        try:
+            return fn(*a)
+        except Exception as e:
+            DECL_FAILURES.append("Solver().%s%r raised %s: %s" % (what, a, type(e).__name__, str(e)[:80]))
+            raise
+    # variables are declared one by one or through the array forms (1-D, k x 1, 1 x k), singleton domains included
+    if nb and rng.random() < 0.3:
+        bools = list(declare("bool_array", s.bool_array, rng.choice([nb, (nb, 1), (1, nb)])))
+    else:
+        bools = [declare("bool_var", s.bool_var) for _ in range(nb)]
     ints = []
-    for _ in range(rng.randint(0 if bools else 1, max_ints)):
+    ni = rng.randint(0 if bools else 1, max_ints)
+    if ni and rng.random() < 0.25:
+        lo = rng.randint(dom[0], dom[1])
+        hi = lo if rng.random() < 0.4 else rng.randint(lo, min(dom[1], lo + 3))
+        ints = list(declare("int_array", s.int_array, rng.choice([ni, (ni, 1), (1, ni)]), lo, hi))
+        ni = 0
+    for _ in range(ni):
         if rng.random() < 0.12:
             # values outside CPython's small-int cache (-5..256): fresh int objects on every solve
             base = rng.choice([298, -304, 1000, 257])
@@ -222,7 +257,7 @@ def random_session(rng, max_bools=3, max_ints=3, depth=3, nconstraints=(1, 4), d
         else:
             lo = rng.randint(dom[0], dom[1])
             hi = rng.randint(lo, min(dom[1], lo + 3))
-        ints.append(s.int_var(lo, hi))
+        ints.append(declare("int_var", s.int_var, lo, hi))
     g = Gen(rng, s, bools, ints)
     for _ in range(rng.randint(*nconstraints)):
         post(s, g, rng, depth)
